@@ -1112,7 +1112,7 @@ func runC08(r *Run) {
 	r.rule("C08.R2", "no wall clock, randomness, process environment, goroutines or select in consensus-reachable code", 400)
 	r.rule("C08.R3", "package-level variables written from consensus-reachable code are exactly the audited set", 8)
 	r.rule("C08.R5", "node-local configuration (AppOptions) reaches consensus-reachable code only under ctx.IsCheckTx(), or through an audited field", 2)
-	r.rule("C08.R4", "CheckTx/simulate copy of the aggregator context: every mutable field is a fresh object with fresh elements; shared fields are never written on the CheckTx path", 5)
+	r.rule("C08.R4", "CheckTx/simulate copy of the aggregator context: every mutable field is a fresh object with fresh elements; shared fields are never written on the CheckTx path; the process-wide cache is mutated by keeper code on the DeliverTx path only", 11)
 
 	oc := &orderCtx{w: w, producers: map[*types.Func]map[int]bool{}}
 	reach := consensusReachable(w)
@@ -1508,6 +1508,61 @@ func c08CheckTxCopy(r *Run) {
 		}
 		r.check(okFresh && n >= 2, "C08.R4", "init|fresh-context", gv.pos(gv.Decl), "the (re)cache initialisers fill a context created by NewAggregatorContext(), never a copy that shares objects", "recacheAggregatorContext/initAggregatorContext are handed a context that is not fresh from NewAggregatorContext()")
 	}
+	// the process-wide cache (package variable of x/oracle/keeper, committed to the store by EndBlock) has no
+	// CheckTx copy: keeper code that names the variable directly runs on the transaction path (message handlers
+	// and the functions they call), so every mutation through it is on the DeliverTx path only.
+	{
+		n := 0
+		seenKey := map[string]int{}
+		for _, v := range w.allViews() {
+			if w.relPkg(v.Obj.Pkg().Path()) != "x/oracle/keeper" || v.Decl.Body == nil {
+				continue
+			}
+			for _, c := range allCalls(v.Decl.Body) {
+				sel, ok := c.Fun.(*ast.SelectorExpr)
+				if !ok {
+					continue
+				}
+				id, ok := stripParens(sel.X).(*ast.Ident)
+				if !ok {
+					continue
+				}
+				vo, ok := v.Info.Uses[id].(*types.Var)
+				if !ok || vo.Pkg() == nil || vo.Parent() != vo.Pkg().Scope() {
+					continue
+				}
+				nt := namedOf(vo.Type())
+				if nt == nil || nt.Obj().Name() != "Cache" || !strings.HasSuffix(nt.Obj().Pkg().Path(), "x/oracle/keeper/cache") {
+					continue
+				}
+				switch sel.Sel.Name {
+				case "AddCache", "RemoveCache", "ResetCaches", "CommitCache", "SkipCommit":
+				default:
+					continue
+				}
+				n++
+				deliverOnly := v.factsOf(c).call("IsCheckTx", false, nil)
+				key := "cache|deliver-only|" + v.ID() + "|" + sel.Sel.Name + "(" + argText(c) + ")"
+				seenKey[key]++
+				if seenKey[key] > 1 {
+					key += fmt.Sprintf("#%d", seenKey[key])
+				}
+				r.check(deliverOnly, "C08.R4", key, v.pos(c), "the process-wide cache is changed here only when ctx.IsCheckTx() is false",
+					v.ID()+" calls "+id.Name+"."+sel.Sel.Name+" at "+v.pos(c)+" in every execution mode: a simulated or checked transaction on one node (RPC gas estimation needs no signature) leaves an entry in that node's cache, and its next EndBlock commits the entry to the store")
+			}
+		}
+		if n < 5 {
+			r.bad("C08.R4", "cache|deliver-only|matcher", "-", "at least 5 mutations of the package-level cache in x/oracle/keeper", fmt.Sprintf("only %d found (matcher lost its anchor)", n))
+		}
+	}
+}
+
+func argText(c *ast.CallExpr) string {
+	var out []string
+	for _, a := range c.Args {
+		out = append(out, exprString(a))
+	}
+	return strings.Join(out, ",")
 }
 
 // inScopeObj: the function is declared in the repository's own source.
@@ -1581,4 +1636,12 @@ func (v *FnView) usesAfter(obj types.Object, pos token.Pos) []*ast.Ident {
 		return true
 	})
 	return out
+}
+
+func namedOf(t types.Type) *types.Named {
+	if p, ok := t.(*types.Pointer); ok {
+		t = p.Elem()
+	}
+	n, _ := t.(*types.Named)
+	return n
 }
